@@ -1,4 +1,4 @@
-package mast
+package file
 
 // Harness vocabulary: native side (replay of solver models against the
 // natively compiled real code). Selected instead of verif_sym.go by the
